@@ -10,7 +10,7 @@ git -C /repo worktree add -q --detach "$W" HEAD || exit 2
 trap 'git -C /repo worktree remove --force "$W" >/dev/null 2>&1; rm -rf "$W"' EXIT
 git -C "$W" apply "$V/seeded/$S/patch.diff" || { echo "patch does not apply"; exit 2; }
 for C in "$@"; do
-  out=$(cd "$V" && ANTHEM_REPO="$W" bin/check "$C" 2>&1); rc=$?
+  out=$(cd "$V" && ANTHEM_REPO="$W" VERIF_EVIDENCE_DIR="$V/work/seed-evidence" VERIF_REPLAY_DIR="$V/work/seed-replay" bin/check "$C" 2>&1); rc=$?
   line=$(echo "$out" | grep -m1 "^VIOLATION" || true)
   echo "$(date -u +%FT%TZ) seed=$S check=$C exit=$rc ${line:-no-violation-line}" | tee -a "$V/seeded/$S/detection.log"
 done
